@@ -85,7 +85,7 @@ func runC09Fresh(x *mc.X) {
 	var r c01Resp
 	r.maxAge = mc.Pick(x, "resp.max-age", []string{"", "10", "3600", "2147483648", "9223372037"})
 	r.expires = mc.Pick(x, "resp.expires", []string{"", "10", "3600"})
-	r.lm = mc.Pick(x, "resp.last-modified", []string{"", "-1000"})
+	r.lm = mc.Pick(x, "resp.last-modified", []string{"", "-1000", "-1500000000"})
 	r.date = mc.Pick(x, "resp.date", []string{"now", "-5", "+5", "absent"})
 	r.age = mc.Pick(x, "resp.age", []string{"", "0", "5"})
 	r.status = mc.Pick(x, "resp.status", c09Statuses)
